@@ -1,0 +1,335 @@
+//go:build verif
+
+package cty
+
+// Verification hooks (build tag "verif"): read-only views of internal
+// representation used by an external checking harness. Nothing here is
+// compiled into normal builds.
+
+import (
+	"fmt"
+	"math/big"
+	"reflect"
+
+	"github.com/zclconf/go-cty/cty/set"
+)
+
+// VerifNumID reports which shared number object a known number value holds:
+// 1 = Zero, 2 = PositiveInfinity, 3 = NegativeInfinity, 0 = any other.
+func VerifNumID(v Value) int {
+	if mr, ok := v.v.(marker); ok {
+		v = Value{ty: v.ty, v: mr.realV}
+	}
+	f, ok := v.v.(*big.Float)
+	if !ok {
+		return -1
+	}
+	switch {
+	case f == Zero.v.(*big.Float):
+		return 1
+	case f == PositiveInfinity.v.(*big.Float):
+		return 2
+	case f == NegativeInfinity.v.(*big.Float):
+		return 3
+	}
+	return 0
+}
+
+// VerifRfn is a copy of the raw refinement of an unknown value.
+type VerifRfn struct {
+	Kind           string // "nil", "nullable", "string", "number", "collection"
+	IsNull         int    // 0 unknown, 1 true, 2 false
+	Prefix         string
+	HasMin, HasMax bool
+	Min, Max       Value
+	MinInc, MaxInc bool
+	MinLen, MaxLen int
+}
+
+// VerifRefinement returns the raw refinement of an unknown value (marks are
+// looked through); ok is false if the value is known.
+func VerifRefinement(v Value) (r VerifRfn, ok bool) {
+	if mr, isM := v.v.(marker); isM {
+		v = Value{ty: v.ty, v: mr.realV}
+	}
+	unk, isUnk := v.v.(*unknownType)
+	if !isUnk {
+		return r, false
+	}
+	tri := func(t tristateBool) int {
+		switch t {
+		case tristateTrue:
+			return 1
+		case tristateFalse:
+			return 2
+		}
+		return 0
+	}
+	switch rfn := unk.refinement.(type) {
+	case nil:
+		r.Kind = "nil"
+	case *refinementNullable:
+		r.Kind = "nullable"
+		r.IsNull = tri(rfn.isNull)
+	case *refinementString:
+		r.Kind = "string"
+		r.IsNull = tri(rfn.isNull)
+		r.Prefix = rfn.prefix
+	case *refinementNumber:
+		r.Kind = "number"
+		r.IsNull = tri(rfn.isNull)
+		r.HasMin = rfn.min != NilVal
+		r.HasMax = rfn.max != NilVal
+		r.Min, r.Max = rfn.min, rfn.max
+		r.MinInc, r.MaxInc = rfn.minInc, rfn.maxInc
+	case *refinementCollection:
+		r.Kind = "collection"
+		r.IsNull = tri(rfn.isNull)
+		r.MinLen, r.MaxLen = rfn.minLen, rfn.maxLen
+	default:
+		r.Kind = fmt.Sprintf("%T", rfn)
+	}
+	return r, true
+}
+
+// VerifBucket describes one hash bucket of a set value.
+type VerifBucket struct {
+	Hash     int
+	Len, Cap int
+	Members  []Value
+}
+
+func verifBuckets(ety Type, s set.Set[interface{}]) []VerifBucket {
+	var ret []VerifBucket
+	for _, b := range set.VerifBuckets(s) {
+		vb := VerifBucket{Hash: b.Hash, Len: b.Len, Cap: b.Cap}
+		for _, m := range b.Members {
+			vb.Members = append(vb.Members, Value{ty: ety, v: m})
+		}
+		ret = append(ret, vb)
+	}
+	return ret
+}
+
+// VerifSetBuckets returns the buckets of a known, non-null, unmarked set value in ascending hash order.
+func VerifSetBuckets(v Value) []VerifBucket {
+	s, ok := v.v.(set.Set[interface{}])
+	if !ok {
+		return nil
+	}
+	return verifBuckets(v.ty.ElementType(), s)
+}
+
+// VerifValueSetBuckets is VerifSetBuckets for a ValueSet.
+func VerifValueSetBuckets(s ValueSet) []VerifBucket {
+	return verifBuckets(s.ElementType(), s.s)
+}
+
+// VerifWellFormed checks that the internal representation of v is consistent
+// with its type, recursively. It returns nil if so.
+func VerifWellFormed(v Value) error {
+	return verifWF(v.ty, v.v, true, "")
+}
+
+func verifWF(ty Type, raw interface{}, markerOK bool, at string) error {
+	if ty == NilType {
+		return fmt.Errorf("%s: nil type", at)
+	}
+	if !ty.WithoutOptionalAttributesDeep().Equals(ty) {
+		return fmt.Errorf("%s: type %#v carries optional-attribute annotations", at, ty)
+	}
+	if mr, ok := raw.(marker); ok {
+		if !markerOK {
+			return fmt.Errorf("%s: marker where none is allowed", at)
+		}
+		if _, nested := mr.realV.(marker); nested {
+			return fmt.Errorf("%s: nested marker", at)
+		}
+		if len(mr.marks) == 0 {
+			return fmt.Errorf("%s: marker with no marks", at)
+		}
+		return verifWF(ty, mr.realV, false, at)
+	}
+	if unk, ok := raw.(*unknownType); ok {
+		switch rfn := unk.refinement.(type) {
+		case nil:
+		case *refinementNullable:
+			if !(ty == Bool || ty.IsObjectType() || ty.IsTupleType() || ty.IsCapsuleType()) {
+				return fmt.Errorf("%s: nullable refinement on %#v", at, ty)
+			}
+			if rfn.isNull == tristateTrue {
+				return fmt.Errorf("%s: unknown value refined as null", at)
+			}
+		case *refinementString:
+			if ty != String {
+				return fmt.Errorf("%s: string refinement on %#v", at, ty)
+			}
+			if rfn.isNull == tristateTrue {
+				return fmt.Errorf("%s: unknown value refined as null", at)
+			}
+			if NormalizeString(rfn.prefix) != rfn.prefix {
+				return fmt.Errorf("%s: prefix not normalized", at)
+			}
+		case *refinementNumber:
+			if ty != Number {
+				return fmt.Errorf("%s: number refinement on %#v", at, ty)
+			}
+			if rfn.isNull == tristateTrue {
+				return fmt.Errorf("%s: unknown value refined as null", at)
+			}
+			for _, b := range []Value{rfn.min, rfn.max} {
+				if b == NilVal {
+					continue
+				}
+				if b.ty != Number {
+					return fmt.Errorf("%s: bound of type %#v", at, b.ty)
+				}
+				if _, isF := b.v.(*big.Float); !isF {
+					return fmt.Errorf("%s: bound is not a known number", at)
+				}
+			}
+		case *refinementCollection:
+			if !ty.IsCollectionType() {
+				return fmt.Errorf("%s: collection refinement on %#v", at, ty)
+			}
+			if rfn.isNull == tristateTrue {
+				return fmt.Errorf("%s: unknown value refined as null", at)
+			}
+			if rfn.minLen < 0 || rfn.maxLen < rfn.minLen {
+				return fmt.Errorf("%s: length bounds %d..%d", at, rfn.minLen, rfn.maxLen)
+			}
+		default:
+			return fmt.Errorf("%s: unexpected refinement %T", at, rfn)
+		}
+		if ty == DynamicPseudoType && unk.refinement != nil {
+			return fmt.Errorf("%s: refined dynamic value", at)
+		}
+		return nil
+	}
+	if raw == nil {
+		return nil // null of any type
+	}
+	switch {
+	case ty == DynamicPseudoType:
+		return fmt.Errorf("%s: known non-null value of dynamic pseudo-type (%T)", at, raw)
+	case ty == Bool:
+		if _, ok := raw.(bool); !ok {
+			return fmt.Errorf("%s: bool holds %T", at, raw)
+		}
+	case ty == Number:
+		f, ok := raw.(*big.Float)
+		if !ok || f == nil {
+			return fmt.Errorf("%s: number holds %T", at, raw)
+		}
+	case ty == String:
+		s, ok := raw.(string)
+		if !ok {
+			return fmt.Errorf("%s: string holds %T", at, raw)
+		}
+		if NormalizeString(s) != s {
+			return fmt.Errorf("%s: string %q not normalized", at, s)
+		}
+	case ty.IsListType():
+		l, ok := raw.([]interface{})
+		if !ok {
+			return fmt.Errorf("%s: list holds %T", at, raw)
+		}
+		for i, e := range l {
+			if err := verifWF(ty.ElementType(), e, true, fmt.Sprintf("%s[%d]", at, i)); err != nil {
+				return err
+			}
+		}
+	case ty.IsMapType():
+		m, ok := raw.(map[string]interface{})
+		if !ok {
+			return fmt.Errorf("%s: map holds %T", at, raw)
+		}
+		for k, e := range m {
+			if NormalizeString(k) != k {
+				return fmt.Errorf("%s: map key %q not normalized", at, k)
+			}
+			if err := verifWF(ty.ElementType(), e, true, fmt.Sprintf("%s[%q]", at, k)); err != nil {
+				return err
+			}
+		}
+	case ty.IsSetType():
+		s, ok := raw.(set.Set[interface{}])
+		if !ok {
+			return fmt.Errorf("%s: set holds %T", at, raw)
+		}
+		rules, ok := s.Rules().(setRules)
+		if !ok || !rules.Type.Equals(ty.ElementType()) {
+			return fmt.Errorf("%s: set rules %#v do not match element type %#v", at, s.Rules(), ty.ElementType())
+		}
+		ety := ty.ElementType()
+		var all []Value
+		for _, b := range set.VerifBuckets(s) {
+			if b.Len == 0 {
+				return fmt.Errorf("%s: empty bucket %d", at, b.Hash)
+			}
+			for _, m := range b.Members {
+				mv := Value{ty: ety, v: m}
+				if err := verifWF(ety, m, false, at+"{member}"); err != nil {
+					return err
+				}
+				if mv.ContainsMarked() {
+					return fmt.Errorf("%s: set member contains marks", at)
+				}
+				if h := mv.Hash(); h != b.Hash {
+					return fmt.Errorf("%s: member with hash %d stored in bucket %d", at, h, b.Hash)
+				}
+				all = append(all, mv)
+			}
+		}
+		for i := range all {
+			for j := i + 1; j < len(all); j++ {
+				if eq := all[i].Equals(all[j]); eq.IsKnown() && eq.True() {
+					return fmt.Errorf("%s: set holds two equal members %#v and %#v", at, all[i], all[j])
+				}
+			}
+		}
+	case ty.IsTupleType():
+		l, ok := raw.([]interface{})
+		if !ok {
+			return fmt.Errorf("%s: tuple holds %T", at, raw)
+		}
+		etys := ty.TupleElementTypes()
+		if len(l) != len(etys) {
+			return fmt.Errorf("%s: tuple of %d elements for type of %d", at, len(l), len(etys))
+		}
+		for i, e := range l {
+			if err := verifWF(etys[i], e, true, fmt.Sprintf("%s[%d]", at, i)); err != nil {
+				return err
+			}
+		}
+	case ty.IsObjectType():
+		m, ok := raw.(map[string]interface{})
+		if !ok {
+			return fmt.Errorf("%s: object holds %T", at, raw)
+		}
+		atys := ty.AttributeTypes()
+		if len(m) != len(atys) {
+			return fmt.Errorf("%s: object with %d attribute values for %d attribute types", at, len(m), len(atys))
+		}
+		for k, aty := range atys {
+			if NormalizeString(k) != k {
+				return fmt.Errorf("%s: attribute name %q not normalized", at, k)
+			}
+			e, ok := m[k]
+			if !ok {
+				return fmt.Errorf("%s: attribute %q has no value", at, k)
+			}
+			if err := verifWF(aty, e, true, at+"."+k); err != nil {
+				return err
+			}
+		}
+	case ty.IsCapsuleType():
+		rv := reflect.ValueOf(raw)
+		if rv.Kind() != reflect.Ptr || !rv.Type().Elem().AssignableTo(ty.EncapsulatedType()) {
+			return fmt.Errorf("%s: capsule holds %T", at, raw)
+		}
+	default:
+		return fmt.Errorf("%s: unsupported type %#v", at, ty)
+	}
+	return nil
+}
